@@ -43,6 +43,7 @@ class C12(Campaign):
     fault_kinds = ["late-listener@op", "re-attach@op (same object again)", "several instances interleaved",
                    "distinct listener objects that compare and hash equal", "falsy listener objects (__len__ == 0 / __bool__ False)",
                    "listener objects of one class that differ in instance-level callbacks",
+                   "two listener objects of one class in one machine, one callback being a staticmethod",
                    "listener attached first to a shallow copy (copy.copy) of the machine, then to the machine",
                    "guard name provided by several objects", "coroutine listener (constructor or late)"]
     rule = ("one run = a generated machine whose callback names (actions of every group, plain-name guards and "
@@ -110,6 +111,21 @@ class C12(Campaign):
             # equal-comparing listeners its own record collapses (C17's known finding), so this variant
             # stays at one attached + one new listener
             prog["listener_eq_all"] = False
+        twin_role = None
+        cands_ = [r_ for r_ in ctor if any(c.startswith(r_ + ".") and m["group"] not in ("cond", "unless", "validators")
+                                          and not any(m.get(f) for f in ("prop", "partial", "only_for"))
+                                          for c, m in prog["cbs"].items())]
+        if cands_ and rnd.random() < 0.15 and not prog.get("listener_eq_all") and not prog.get("listener_eq"):
+            # TWO listener objects of one class in the constructor's list; one of their callbacks is a
+            # staticmethod (the same plain function on both objects): both are providers, both are called
+            twin_role = rnd.choice(cands_)
+            c_ = rnd.choice(sorted(c for c, m in prog["cbs"].items()
+                                   if c.startswith(twin_role + ".") and m["group"] not in ("cond", "unless", "validators")
+                                   and not any(m.get(f) for f in ("prop", "partial", "only_for"))))
+            prog["cbs"][c_]["static"] = True
+            prog["cbs"][c_]["sig"] = [gen.P("kw", "varkw")]
+            prog["cbs"][c_].pop("awaitable", None)
+            ctor.insert(ctor.index(twin_role) + 1, twin_role + "#2")
         is_async_ctor = any(m.get("async") for c, m in prog["cbs"].items()
                             if c.split(".", 1)[0] in ["machine", "model"] + ctor)
         new = sc["ops"][0]
